@@ -70,7 +70,7 @@ func DrawDirSpec(t *tape.Tape, o DirOpts) DirSpec {
 	}
 	s.Mined = t.Intn(6)
 	s.MineBit = 6 + t.Intn(15) // 6..20 bits of shared prefix
-	s.Style = t.Intn(6)
+	s.Style = t.Intn(7)
 	s.Seed = t.Raw()
 	for t.Pos() < start+8 {
 		t.Skip(1)
@@ -99,6 +99,17 @@ func Names(s DirSpec) []string {
 			return fmt.Sprintf("%02X%d", byte(r.Next()), i) // hex-looking prefixes
 		case 2:
 			return fmt.Sprintf("n %d é☃", i) // spaces and unicode
+		case 6: // families {x, <hex digit>x, <two hex digits>x}: a name that
+			// equals another name behind something that looks like a bucket label
+			base := fmt.Sprintf("q%d", i/20)
+			switch k := i % 20; {
+			case k == 0:
+				return base
+			case k <= 16:
+				return fmt.Sprintf("%X", k-1) + base
+			default:
+				return fmt.Sprintf("%X%X", 1+(k-17), (i/20+k)%16) + base
+			}
 		case 5: // names that are not valid UTF-8 and differ only inside the invalid bytes
 			// raw bytes, not runes: "r\xe9s\xe8<n>" is not valid UTF-8
 			return "r" + string([]byte{[]byte{0xe9, 0xe8, 0xff, 0xc0}[i%4]}) + "s" + string([]byte{[]byte{0xe9, 0xe8}[(i/4)%2]}) + fmt.Sprint(i/8)
